@@ -1,10 +1,513 @@
 /-
-  Model module `Str` (driver op `str`). Import-free apart from RsjModel.* modules.
+  Model module `Str` (driver op `str`): the string functions of rsjsonnet
+  (`rsjsonnet-lang/src/program/eval/stdlib.rs`, `eval/mod.rs` State::Index,
+  `eval/expr.rs` get_slice_range / do_slice_string, `eval/format.rs` field padding).
+
+  A Rust `str` is the list of its Unicode scalar values (`Str = List Nat`);
+  `utf8Len` gives the number of bytes of each scalar, so byte offsets (as returned
+  by `str::find`, consumed by `split_at` and `&s[n..]`) are sums of `utf8Len`.
+  Rust std primitives are modelled from their documented contracts; the glue
+  code of the repo is modelled literally, with every panic site explicit.
+
+  Numeric arguments are finite f64 values (Jsonnet numbers are never NaN/inf).
+  They are abstracted to `Num` = (sign bit, ⌊|x|⌋, "has a fractional part"):
+  every test / cast the modelled code applies (`is_finite`, `trunc() != x`,
+  `x < 0.0`, `x as usize`, `-x as usize`, `try_to_usize[_exact]`, `try_to_u32`)
+  is a function of this abstraction.
 -/
 import RsjModel.Util
 namespace Rsj.Str
 
-/-- `str <args...>` : one canonical answer line, or `none` for a malformed request. -/
-def handle (_args : List String) : Option String := none
+/-- A Rust `str`: its sequence of Unicode scalar values (`chars()`). -/
+abbrev Str := List Nat
+
+/-- `char::len_utf8` -/
+def utf8Len (c : Nat) : Nat :=
+  if c < 0x80 then 1 else if c < 0x800 then 2 else if c < 0x10000 then 3 else 4
+
+/-- `str::len` (bytes) -/
+def byteLen : Str → Nat
+  | [] => 0
+  | c :: cs => utf8Len c + byteLen cs
+
+/-- `char::from_u32(..).is_some()` -/
+def isScalar (n : Nat) : Bool := n < 0xD800 || (0xE000 ≤ n && n < 0x110000)
+
+def USIZE_MAX : Nat := 2 ^ 64 - 1
+def U32_MAX : Nat := 2 ^ 32 - 1
+
+/-! ### Outcomes -/
+
+inductive Err where
+  /-- a Rust panic (site named); must be unreachable -/
+  | panic (site : String)
+  /-- loop fuel exhausted (model artefact; proved unreachable) -/
+  | fuel
+  | substrFrom | substrLen
+  | sliceStart | sliceEnd | sliceStep
+  | indexNotValid
+  | indexOutOfRange (index length : Nat)
+  | notSingleChar
+  | badCodepoint
+  | emptyDelim
+  | maxsplitsNotInt | maxsplitsNeg
+deriving Repr, DecidableEq
+
+/-! ### f64 arguments -/
+
+structure Num where
+  /-- sign bit (so `-0.0` is `⟨true, 0, false⟩`) -/
+  neg : Bool
+  /-- `⌊|x|⌋` -/
+  int : Nat
+  /-- `|x|` has a non-zero fractional part -/
+  frac : Bool
+deriving Repr, DecidableEq
+
+namespace Num
+
+def ofNat (n : Nat) : Num := ⟨false, n, false⟩
+def ofInt (i : Int) : Num := ⟨decide (i < 0), i.natAbs, false⟩
+
+/-- `x.trunc() != x` -/
+def notInt (x : Num) : Bool := x.frac
+/-- `x < 0.0` -/
+def ltZero (x : Num) : Bool := x.neg && (decide (0 < x.int) || x.frac)
+/-- `x < 1.0` -/
+def ltOne (x : Num) : Bool := x.neg || x.int == 0
+/-- `x as usize` (truncating, saturating; negative → 0) -/
+def asUsize (x : Num) : Nat := if x.neg then 0 else min x.int USIZE_MAX
+/-- `-x as usize` -/
+def negAsUsize (x : Num) : Nat := if x.neg then min x.int USIZE_MAX else 0
+/-- `x.trunc()` -/
+def trunc (x : Num) : Num := { x with frac := false }
+
+/-- `float::try_to_usize_exact`: `let i = x as usize; (i as f64 == x).then_some(i)`.
+    `usize::MAX as f64` rounds to 2^64, so `x = 2^64` yields `Some(usize::MAX)`. -/
+def tryToUsizeExact (x : Num) : Option Nat :=
+  if x.frac then none
+  else if x.neg && decide (0 < x.int) then none
+  else if x.int ≤ USIZE_MAX then some x.int
+  else if x.int = USIZE_MAX + 1 then some USIZE_MAX
+  else none
+
+/-- `float::try_to_usize` (truncates first) -/
+def tryToUsize (x : Num) : Option Nat := tryToUsizeExact x.trunc
+
+/-- `float::try_to_u32` (truncates first; `u32 as f64` is exact) -/
+def tryToU32 (x : Num) : Option Nat :=
+  if x.neg && decide (0 < x.int) then none
+  else if x.int ≤ U32_MAX then some x.int
+  else none
+
+end Num
+
+/-! ### Rust `str` / iterator primitives (documented contracts) -/
+
+/-- `str::find(&str)`: byte offset of the leftmost match. -/
+def find (pat : Str) : Str → Option Nat
+  | [] => if pat.isPrefixOf [] then some 0 else none
+  | c :: cs =>
+    if pat.isPrefixOf (c :: cs) then some 0
+    else (find pat cs).map (· + utf8Len c)
+
+/-- `str::split_at(mid)`: `none` = panic (mid past the end or inside a character). -/
+def splitAt : Str → Nat → Option (Str × Str)
+  | s, 0 => some ([], s)
+  | [], _ + 1 => none
+  | c :: cs, m + 1 =>
+    if utf8Len c ≤ m + 1 then
+      (splitAt cs (m + 1 - utf8Len c)).map (fun p => (c :: p.1, p.2))
+    else none
+
+/-- `&s[n..]`: `none` = panic. -/
+def sliceFrom (s : Str) (n : Nat) : Option Str := (splitAt s n).map (·.2)
+
+/-- `Iterator::step_by(k)` (`k ≥ 1`): first element, then every `k`-th. -/
+def stepByAux (k : Nat) : Nat → Str → Str
+  | _, [] => []
+  | 0, c :: cs => c :: stepByAux k (k - 1) cs
+  | n + 1, _ :: cs => stepByAux k n cs
+
+def stepBy (k : Nat) (s : Str) : Str := stepByAux k 0 s
+
+/-- `str::split_once(&str)`: split at the leftmost occurrence. -/
+def splitOnce (sep : Str) : Str → Option (Str × Str)
+  | [] => if sep.isPrefixOf [] then some ([], []) else none
+  | c :: cs =>
+    if sep.isPrefixOf (c :: cs) then some ([], (c :: cs).drop sep.length)
+    else (splitOnce sep cs).map (fun p => (c :: p.1, p.2))
+
+/-- `str::rsplit_once(&str)`: split at the rightmost occurrence. -/
+def rsplitOnce (sep : Str) : Str → Option (Str × Str)
+  | [] => if sep.isPrefixOf [] then some ([], []) else none
+  | c :: cs =>
+    match rsplitOnce sep cs with
+    | some p => some (c :: p.1, p.2)
+    | none =>
+      if sep.isPrefixOf (c :: cs) then some ([], (c :: cs).drop sep.length) else none
+
+/-- `str::splitn(n, &str)`: at most `n` items, the last one is the unsplit remainder. -/
+def splitN (sep : Str) : Nat → Str → List Str
+  | 0, _ => []
+  | 1, s => [s]
+  | n + 2, s =>
+    match splitOnce sep s with
+    | none => [s]
+    | some (a, b) => a :: splitN sep (n + 1) b
+
+/-- `str::rsplitn(n, &str)`: the same from the end (items come out last-first). -/
+def rsplitN (sep : Str) : Nat → Str → List Str
+  | 0, _ => []
+  | 1, s => [s]
+  | n + 2, s =>
+    match rsplitOnce sep s with
+    | none => [s]
+    | some (a, b) => b :: rsplitN sep (n + 1) a
+
+/-- `str::split(&str)` for a non-empty separator: `splitn` with a limit that cannot be
+    reached (a string of `k` characters has at most `k + 1` pieces;
+    `RsjProofs.Str.splitN_stable`). -/
+def split (sep s : Str) : List Str := splitN sep (s.length + 2) s
+
+/-- `str::replacen(from, to, count)` for a non-empty `from`. -/
+def replaceN (frm to : Str) : Nat → Str → Str
+  | 0, s => s
+  | n + 1, s =>
+    match splitOnce frm s with
+    | none => s
+    | some (a, b) => a ++ to ++ replaceN frm to n b
+
+/-- `str::replace(from, to)`. An empty `from` matches at every character boundary
+    (including both ends); otherwise all non-overlapping leftmost matches. -/
+def replace (s frm to : Str) : Str :=
+  match frm with
+  | [] => to ++ s.flatMap (fun c => c :: to)
+  | _ :: _ => replaceN frm to (s.length + 1) s
+
+/-- `str::strip_prefix(&[char])`: removes exactly one leading character of the set. -/
+def stripPrefixSet (cs : Str) : Str → Option Str
+  | [] => none
+  | c :: rest => if cs.contains c then some rest else none
+
+/-- `str::strip_suffix(&[char])`: removes exactly one trailing character of the set. -/
+def stripSuffixSet (cs : Str) (s : Str) : Option Str :=
+  match s.getLast? with
+  | some c => if cs.contains c then some s.dropLast else none
+  | none => none
+
+/-- `str::trim_matches(pred)` -/
+def trimMatches (p : Nat → Bool) (s : Str) : Str :=
+  ((s.dropWhile p).reverse.dropWhile p).reverse
+
+/-! ### The repo's functions -/
+
+/-- `do_std_length` on a string: `s.chars().count()` -/
+def length (s : Str) : Nat := s.length
+
+/-- `State::Index` on a string -/
+def index (s : Str) (i : Num) : Except Err Str :=
+  match i.tryToUsizeExact with
+  | none => .error .indexNotValid
+  | some iu =>
+    match s[iu]? with          -- `s.chars().nth(index_usize)`
+    | some c => .ok [c]
+    | none => .error (.indexOutOfRange iu s.length)
+
+/-- `get_slice_range` -/
+def getSliceRange (len : Nat) (start stop step : Option Num) : Except Err (Nat × Nat × Nat) :=
+  let start' : Except Err Nat :=
+    match start with
+    | some st =>
+      if st.notInt then .error .sliceStart
+      else if st.ltZero then .ok (len - st.negAsUsize)     -- saturating_sub
+      else .ok st.asUsize
+    | none => .ok 0
+  match start' with
+  | .error e => .error e
+  | .ok a =>
+    let stop' : Except Err Nat :=
+      match stop with
+      | some en =>
+        if en.notInt then .error .sliceEnd
+        else
+          let e := if en.ltZero then len - en.negAsUsize else en.asUsize
+          .ok (max e a)
+      | none => .ok USIZE_MAX
+    match stop' with
+    | .error e => .error e
+    | .ok b =>
+      match step with
+      | some sp =>
+        if sp.notInt || sp.ltOne then .error .sliceStep
+        else .ok (a, b, sp.asUsize)
+      | none => .ok (a, b, 1)
+
+/-- `do_slice_string`; `end - start` is a checked `usize` subtraction, `step_by(0)` panics. -/
+def sliceString (s : Str) (start stop step : Option Num) : Except Err Str :=
+  match getSliceRange s.length start stop step with
+  | .error e => .error e
+  | .ok (a, b, k) =>
+    if b < a then .error (.panic "end - start")
+    else if k = 0 then .error (.panic "step_by(0)")
+    else .ok (stepBy k ((s.drop a).take (b - a)))
+
+/-- `do_std_substr` -/
+def substr (s : Str) (frm len : Num) : Except Err Str :=
+  if frm.notInt || frm.ltZero then .error .substrFrom
+  else if len.notInt || len.ltZero then .error .substrLen
+  else .ok ((s.drop frm.asUsize).take len.asUsize)
+
+/-- The `from_fn` closure of `do_std_find_substr`, iterated until `find` fails.
+    `fpl` = `first_pat_chr_len`, `chrIndex` = `chr_index`, `rem` = `rem_str`. -/
+def findSubstrLoop (pat : Str) (fpl : Nat) : Nat → Str → Nat → Except Err (List Nat)
+  | 0, _, _ => .error .fuel
+  | f + 1, rem, chrIndex =>
+    match find pat rem with
+    | none => .ok []
+    | some i =>
+      match splitAt rem i with
+      | none => .error (.panic "split_at")
+      | some (before, after) =>
+        let matchPos := chrIndex + before.length
+        match sliceFrom after fpl with
+        | none => .error (.panic "after[first_pat_chr_len..]")
+        | some rem' =>
+          match findSubstrLoop pat fpl f rem' (matchPos + 1) with
+          | .error e => .error e
+          | .ok l => .ok (matchPos :: l)
+
+/-- `do_std_find_substr` -/
+def findSubstr (pat s : Str) : Except Err (List Nat) :=
+  match pat with
+  | [] => .ok []          -- "An empty pattern does not produce any matches."
+  | c :: _ => findSubstrLoop pat (utf8Len c) (s.length + 1) s 0
+
+/-- `do_std_starts_with` / `do_std_ends_with` -/
+def startsWith (a b : Str) : Bool := b.isPrefixOf a
+def endsWith (a b : Str) : Bool := b.reverse.isPrefixOf a.reverse
+
+/-- `while let Some(stripped) = res.strip_prefix(chars) { res = stripped }` -/
+def lstripLoop (cs : Str) : Nat → Str → Except Err Str
+  | 0, _ => .error .fuel
+  | f + 1, res =>
+    match stripPrefixSet cs res with
+    | some r => lstripLoop cs f r
+    | none => .ok res
+
+def rstripLoop (cs : Str) : Nat → Str → Except Err Str
+  | 0, _ => .error .fuel
+  | f + 1, res =>
+    match stripSuffixSet cs res with
+    | some r => rstripLoop cs f r
+    | none => .ok res
+
+/-- `do_std_lstrip_chars` -/
+def lstripChars (s cs : Str) : Except Err Str := lstripLoop cs (s.length + 1) s
+/-- `do_std_rstrip_chars` -/
+def rstripChars (s cs : Str) : Except Err Str := rstripLoop cs (s.length + 1) s
+/-- `do_std_strip_chars`: prefix loop, then suffix loop -/
+def stripChars (s cs : Str) : Except Err Str :=
+  match lstripLoop cs (s.length + 1) s with
+  | .error e => .error e
+  | .ok r => rstripLoop cs (r.length + 1) r
+
+/-- `do_std_split` -/
+def stdSplit (s sep : Str) : Except Err (List Str) :=
+  if sep.isEmpty then .error .emptyDelim else .ok (split sep s)
+
+/-- The `maxsplits` decoding shared by `splitLimit` / `splitLimitR`:
+    `none` = unlimited (`-1`, or `maxsplits + 1` not representable). -/
+def decodeMaxsplits (n : Num) : Except Err (Option Nat) :=
+  if n.notInt then .error .maxsplitsNotInt
+  else if n.ltZero then
+    if n.int = 1 then .ok none else .error .maxsplitsNeg   -- `maxsplits != -1.0`
+  else
+    match n.tryToUsize with
+    | none => .ok none
+    | some v => if v + 1 ≤ USIZE_MAX then .ok (some (v + 1)) else .ok none  -- checked_add(1)
+
+/-- `do_std_split_limit` -/
+def splitLimit (s sep : Str) (n : Num) : Except Err (List Str) :=
+  if sep.isEmpty then .error .emptyDelim
+  else
+    match decodeMaxsplits n with
+    | .error e => .error e
+    | .ok (some m) => .ok (splitN sep m s)
+    | .ok none => .ok (split sep s)
+
+/-- `do_std_split_limit_r` -/
+def splitLimitR (s sep : Str) (n : Num) : Except Err (List Str) :=
+  if sep.isEmpty then .error .emptyDelim
+  else
+    match decodeMaxsplits n with
+    | .error e => .error e
+    | .ok (some m) => .ok (rsplitN sep m s).reverse
+    | .ok none => .ok (split sep s)
+
+/-- `do_std_str_replace` -/
+def strReplace (s frm to : Str) : Str := replace s frm to
+
+def isTrimChar (c : Nat) : Bool :=
+  c == 9 || c == 10 || c == 0x0C || c == 13 || c == 32 || c == 0x85 || c == 0xA0
+
+/-- `do_std_trim` -/
+def trim (s : Str) : Str := trimMatches isTrimChar s
+
+/-- `do_std_ascii_upper` / `do_std_ascii_lower` -/
+def asciiUpper (s : Str) : Str := s.map (fun c => if 97 ≤ c ∧ c ≤ 122 then c - 32 else c)
+def asciiLower (s : Str) : Str := s.map (fun c => if 65 ≤ c ∧ c ≤ 90 then c + 32 else c)
+
+/-- `do_std_string_chars` -/
+def stringChars (s : Str) : List Str := s.map (fun c => [c])
+
+/-- `do_std_reverse` on a string: array of one-character strings, reversed -/
+def reverse (s : Str) : List Str := s.reverse.map (fun c => [c])
+
+/-- `do_std_codepoint` -/
+def codepoint (s : Str) : Except Err Nat :=
+  match s with
+  | [c] => .ok c
+  | _ => .error .notSingleChar
+
+/-- `do_std_char` -/
+def char (n : Num) : Except Err Str :=
+  match n.trunc.tryToU32 with
+  | some v => if isScalar v then .ok [v] else .error .badCodepoint
+  | none => .error .badCodepoint
+
+/-- `do_std_join` with a string separator over an array of strings
+    (`do_std_join_str_item` with its `first` flag, `do_std_join_str_finish`). -/
+def joinLoop (sep : Str) : List Str → Bool → Str → Str
+  | [], _, acc => acc
+  | x :: xs, first, acc => joinLoop sep xs false (if first then acc ++ x else acc ++ sep ++ x)
+
+def join (sep : Str) (xs : List Str) : Str := joinLoop sep xs true []
+
+/-- `do_std_map` over a string: the function applied to each one-character string -/
+def mapStr {α : Type} (f : Str → α) (s : Str) : List α := s.map (fun c => f [c])
+
+/-- `do_std_flat_map` over a string (function results concatenated in order) -/
+def flatMapStr (f : Str → Str) (s : Str) : Str := (s.map (fun c => f [c])).flatten
+
+/-- Field padding of `std.format` (`do_std_format_codes_array_3`): `fw` = field width. -/
+def pad (s : Str) (fw : Nat) (left : Bool) : Str :=
+  let sLen := s.length                         -- `s.chars().count()`
+  if sLen < fw then
+    let padLen := fw - sLen
+    if left then s ++ List.replicate padLen 32 else List.replicate padLen 32 ++ s
+  else s
+
+/-! ### Driver -/
+
+def utf8Decode : List Nat → Option Str
+  | [] => some []
+  | b0 :: rest =>
+    if b0 < 0x80 then (utf8Decode rest).map (b0 :: ·)
+    else if b0 < 0xC0 then none
+    else if b0 < 0xE0 then
+      match rest with
+      | b1 :: r => (utf8Decode r).map (((b0 - 0xC0) * 64 + (b1 - 0x80)) :: ·)
+      | _ => none
+    else if b0 < 0xF0 then
+      match rest with
+      | b1 :: b2 :: r =>
+        (utf8Decode r).map (((b0 - 0xE0) * 4096 + (b1 - 0x80) * 64 + (b2 - 0x80)) :: ·)
+      | _ => none
+    else
+      match rest with
+      | b1 :: b2 :: b3 :: r =>
+        (utf8Decode r).map
+          (((b0 - 0xF0) * 262144 + (b1 - 0x80) * 4096 + (b2 - 0x80) * 64 + (b3 - 0x80)) :: ·)
+      | _ => none
+
+def decStr (h : String) : Option Str := (hexDecode h).bind utf8Decode
+def encStr (s : Str) : String := hexEnc (s.flatMap utf8EncodeChar)
+
+/-- Is the natural number exactly representable as an f64? (driver-side guard) -/
+def isF64Nat (n : Nat) : Bool :=
+  n < 2 ^ 53 || (n < 2 ^ 1024 && n % 2 ^ (n.log2 - 52) == 0)
+
+/-- `[-]digits[.digits]` -/
+def parseNum (s : String) : Option Num :=
+  let (neg, body) := match s.toList with
+    | '-' :: r => (true, String.ofList r)
+    | _ => (false, s)
+  match body.splitOn "." with
+  | [i] => do
+    let n ← i.toNat?
+    if isF64Nat n then some ⟨neg, n, false⟩ else none
+  | [i, f] => do
+    let n ← i.toNat?
+    let _ ← f.toNat?
+    if n < 2 ^ 40 then some ⟨neg, n, f.toList.any (· != '0')⟩ else none
+  | _ => none
+
+def parseOptNum (s : String) : Option (Option Num) :=
+  if s == "-" then some none else (parseNum s).map some
+
+def showErr : Err → String
+  | .panic site => "panic " ++ site
+  | .fuel => "E fuel"
+  | .substrFrom => "E substrFrom" | .substrLen => "E substrLen"
+  | .sliceStart => "E sliceStart" | .sliceEnd => "E sliceEnd" | .sliceStep => "E sliceStep"
+  | .indexNotValid => "E indexNotValid"
+  | .indexOutOfRange i l => s!"E indexOutOfRange {i}/{l}"
+  | .notSingleChar => "E notSingleChar"
+  | .badCodepoint => "E badCodepoint"
+  | .emptyDelim => "E emptyDelim"
+  | .maxsplitsNotInt => "E maxsplitsNotInt" | .maxsplitsNeg => "E maxsplitsNeg"
+
+def showS (s : Str) : String := "s " ++ encStr s
+def showL (l : List Str) : String :=
+  if l.isEmpty then "l []" else "l " ++ ",".intercalate (l.map encStr)
+def showA (l : List Nat) : String := "a " ++ showNatList l
+def showB (b : Bool) : String := if b then "b true" else "b false"
+
+def showR {α : Type} (f : α → String) : Except Err α → String
+  | .ok a => f a
+  | .error e => showErr e
+
+def decStrList (s : String) : Option (List Str) :=
+  if s == "[]" then some [] else (s.splitOn ",").mapM decStr
+
+/-- `str <sub> <args...>` -/
+def handle (args : List String) : Option String :=
+  match args with
+  | ["length", s] => do pure s!"n {length (← decStr s)}"
+  | ["index", s, i] => do pure (showR showS (index (← decStr s) (← parseNum i)))
+  | ["slice", s, a, b, c] => do
+    pure (showR showS (sliceString (← decStr s) (← parseOptNum a) (← parseOptNum b) (← parseOptNum c)))
+  | ["stdslice", s, a, b, c] => do
+    pure (showR showS (sliceString (← decStr s) (← parseOptNum a) (← parseOptNum b) (← parseOptNum c)))
+  | ["substr", s, f, l] => do
+    pure (showR showS (substr (← decStr s) (← parseNum f) (← parseNum l)))
+  | ["find", p, s] => do pure (showR showA (findSubstr (← decStr p) (← decStr s)))
+  | ["split", s, c] => do pure (showR showL (stdSplit (← decStr s) (← decStr c)))
+  | ["splitlimit", s, c, n] => do
+    pure (showR showL (splitLimit (← decStr s) (← decStr c) (← parseNum n)))
+  | ["splitlimitr", s, c, n] => do
+    pure (showR showL (splitLimitR (← decStr s) (← decStr c) (← parseNum n)))
+  | ["strip", s, c] => do pure (showR showS (stripChars (← decStr s) (← decStr c)))
+  | ["lstrip", s, c] => do pure (showR showS (lstripChars (← decStr s) (← decStr c)))
+  | ["rstrip", s, c] => do pure (showR showS (rstripChars (← decStr s) (← decStr c)))
+  | ["replace", s, f, t] => do
+    pure (showS (strReplace (← decStr s) (← decStr f) (← decStr t)))
+  | ["chars", s] => do pure (showL (stringChars (← decStr s)))
+  | ["reverse", s] => do pure (showL (reverse (← decStr s)))
+  | ["codepoint", s] => do
+    pure (showR (fun n => s!"n {n}") (codepoint (← decStr s)))
+  | ["char", n] => do pure (showR showS (char (← parseNum n)))
+  | ["join", c, xs] => do pure (showS (join (← decStr c) (← decStrList xs)))
+  | ["startswith", a, b] => do pure (showB (startsWith (← decStr a) (← decStr b)))
+  | ["endswith", a, b] => do pure (showB (endsWith (← decStr a) (← decStr b)))
+  | ["upper", s] => do pure (showS (asciiUpper (← decStr s)))
+  | ["lower", s] => do pure (showS (asciiLower (← decStr s)))
+  | ["trim", s] => do pure (showS (trim (← decStr s)))
+  | ["map", s] => do pure (showL (mapStr (fun c => c ++ c) (← decStr s)))
+  | ["flatmap", s] => do pure (showS (flatMapStr (fun c => c ++ [124] ++ c) (← decStr s)))
+  | ["pad", s, w, l] => do
+    pure (showS (pad (← decStr s) (← w.toNat?) (l == "1")))
+  | _ => none
 
 end Rsj.Str
